@@ -41,6 +41,13 @@ TEMPLATE_GRAMMARS = [
      ['x = y', 'x =\ny', 'x = y\nz = w', 'x=y;z = w;', ' a=b', ''], None),
     ('start = Sum\nSum = Prod between {\n left: "+", "-"\n}\nProd = Atom between {\n prefix: "-"\n left: "*"\n}\nAtom = /\\d/ | ("(" >> Sum << ")")\n',
      ['1+2*3', '-(1+2)', '1+', '(1', ''], None),
+    # an expression nested too deep for one Python function (helper functions), reached through a template
+    ('ignore / +/\nstart = Chain(Word)\nChain(Tail) => ' + ''.join(f'("{c}" >> ' for c in 'lkjihgfedcba') + 'Tail' + ' | Word)' * 12 + '\nWord = /[A-Z]+/\n',
+     ['l k j i h g f e d c b a ZZ', 'l k j i h g f e d c b a', 'l k j i h g f e d c b x', 'AB', 'l AB', 'l k AB', ''], None),
+    # a template that calls one of its parameters with arguments
+    ('ignore / +/\nstart = Value\nValue = Word | Listing(Parens, Value) | Listing(Brackets, Value)\nListing(wrapper, T) => wrapper(T /? ",")\n'
+     'Parens(x) => "(" >> x << ")"\nBrackets(x) => "[" >> x << "]"\nWord = /[a-z]+/\n',
+     ['(a, b)', '[a b]', 'a', '[a, (b, c)]', '(', ''], None),
     # a Python section whose behaviour depends on how the module was compiled (assert, docstrings, __debug__)
     ('```\ndef small(x):\n    "small things"\n    assert len(x) < 3, "too long"\n    return True\ndef doc(_):\n    return (small.__doc__, __debug__)\n```\n'
      'start = [/[a-z]+/ where `small`, "!"? |> `doc`]\n',
@@ -196,6 +203,11 @@ def extends_across_variants(tag):
             k = next((i for i in range(min(len(res), len(per_variant['unnamed']))) if res[i] != per_variant['unnamed'][i]), 0)
             bad.append({'key': f'entry-points|{vname}', 'sig': 'entry-points', 'kind': 'spec',
                         'what': f'entry point in variant "{vname}": {str(res[k])[:160]} vs {str(per_variant["unnamed"][k])[:160]} in the plain module'})
+    # compiled repeatedly: a parent name compiled twice with different bodies, children compiled after each
+    from props import c13
+    b2, n2 = c13.name_reuse_scenarios(f'c11nr{tag}', realrun)
+    bad += [dict(x, sig='name-reuse') for x in b2]
+    n += n2
     return n, bad
 
 
